@@ -34,6 +34,9 @@ def candidate_points(m, tiny=False):
             if isint and lb < ub:
                 q = list(p); q[j] = min(ub, p[j]) - 0.3 if p[j] > lb else p[j] + 0.3; pts.append((q, 'fractional'))
                 if tiny: q = list(p); q[j] = p[j] + 1e-7 if p[j] < ub else p[j] - 1e-7; pts.append((q, 'frac-tiny'))
+                # between the feasibility tolerance (1e-6) and the integrality tolerance (1e-5), and just beyond the latter
+                if tiny: q = list(p); q[j] = p[j] + 4e-6 if p[j] < ub else p[j] - 4e-6; pts.append((q, 'frac-4e-6'))
+                if tiny: q = list(p); q[j] = p[j] + 4e-5 if p[j] < ub else p[j] - 4e-5; pts.append((q, 'frac-4e-5'))
     return pts
 
 
@@ -210,9 +213,12 @@ def models(tier):
         if fam == 'bounds' and name.startswith('dom5') and 'alldiff' in name: continue   # dom5 makes the third alldiff argument continuous (= alldiffcont)     # alldiff over non-integer expressions is refused by the converter;
         out.append((fam, name, m))                               # SOS/complementarity: auxiliaries not functionally determined
     if tier == 'quick':
-        d1 = [(f, n, m) for (f, n, m) in flatgen.all_models('quick', ['shapes'])]
-        out += d1[::12]
+        sh = [(f, n, m) for (f, n, m) in flatgen.all_models('quick', ['shapes'])]
+        out += [t for t in sh if '<-' in t[1] and not t[1].startswith('log ')][::12]
         out = out[::2]
+        out += [t for t in sh if '<-' not in t[1]]          # every depth-1 operator shape at every root
+        out += [t for t in sh if '<-' in t[1] and t[1].startswith('log ')]   # every (parent, slot, child) under a logical root:
+        # a nested expression may be false at a feasible point, so a wrong recomputation shows as a spurious report
     else:
         out = out[::4]
     return out
